@@ -50,7 +50,8 @@ def algorithms():
   grad_fn = models.grad(pel)
   sgd = optimizers.sgd(0.1)
   mom = optimizers.sgd(0.1, momentum=0.5)
-  hp = cds.ShuffleRepeatBatchHParams(batch_size=2, seed=1)
+  # seed 0: a seed like any other (and the one a falsy test would lose)
+  hp = cds.ShuffleRepeatBatchHParams(batch_size=2, seed=0)
   php = cds.PaddedBatchHParams(batch_size=4)
   return {
       'fed_avg': lambda: fed_avg.federated_averaging(grad_fn, sgd, mom, hp),
